@@ -582,3 +582,50 @@ _run_c08d = run
 def run(ctx):  # noqa: F811
     _run_c08d(ctx)
     r08_10(ctx, ctx.model)
+
+
+def r08_11(ctx, m):
+    D = m.cls(*DOM)
+    h = D.methods.get("__hash__")
+    ctx.rule("R08.11", "Domain.__hash__ memoises its value in the instance, and the default pickling ships that memo: the hash may only be "
+                       "built from the _needed_for_hash attributes (numbers, tuples, other domains - whose hashes are the same in every "
+                       "interpreter), never from a string such as the class name (str hashes are salted per process), or the memo must "
+                       "be dropped from the pickled state - otherwise an unpickled domain compares equal to a fresh one but hashes "
+                       "differently and misses the tuple / multi-domain / power-index caches", floor=1)
+    if h is None:
+        ctx.und("R08.11", f"{D.key}::__hash__", "missing", D)
+    else:
+        ctx.saw_func(h)
+        memo = [st for st in walk_no_nested(h.node) if isinstance(st, ast.Assign) and src(st.targets[0]) == "self._hash"]
+        key = f"{h.key}::memoised hash is interpreter independent"
+        if len(memo) != 1:
+            ctx.und("R08.11", key, f"{len(memo)} memo assignments", h)
+        else:
+            t = src(memo[0].value)
+            salted = [w for w in ("__qualname__", "__name__", "__class__", "type(self)", "str(", "repr(", "__module__") if w in t]
+            drops = any(n_ in D.methods for n_ in ("__getstate__", "__reduce__", "__reduce_ex__"))
+            if salted and not drops:
+                ctx.bad("R08.11", key, f"`{t}` hashes {salted}: string hashes differ between interpreters, and the memo `_hash` is part of the pickled "
+                                       "instance dictionary", h, memo[0])
+            else:
+                ctx.check("R08.11", key, True if "_needed_for_hash" in t or drops else None, t, h, memo[0])
+    ctx.rule("R08.12", "LMSpace accepts every 0 <= mmax <= lmax: its k-length table is filled by a loop over m = 1..mmax that may run "
+                       "zero times; a concatenate/stack over a comprehension of that range raises for mmax = 0 ('need at least one array')", floor=1)
+    L = m.cls("nifty.cl.domains.lm_space", "LMSpace")
+    ka = L.methods.get("get_k_length_array")
+    ctx.saw_func(ka)
+    bad = []
+    for c in ast.walk(ka.node):
+        if isinstance(c, ast.Call) and call_name(c) in ("concatenate", "stack", "hstack", "vstack") and c.args and isinstance(c.args[0], (ast.ListComp, ast.GeneratorExp)):
+            g = c.args[0].generators[0]
+            if isinstance(g.iter, ast.Call) and src(g.iter.func) == "range" and g.iter.args and src(g.iter.args[0]) == "1" and "mmax" in src(g.iter):
+                bad.append(c)
+    ctx.check("R08.12", f"{ka.key}::the m-loop may be empty", not bad, f"`{short(bad[0], 70)}` has nothing to join for mmax = 0" if bad else None, ka, bad[0] if bad else None)
+
+
+_run_c08e = run
+
+
+def run(ctx):  # noqa: F811
+    _run_c08e(ctx)
+    r08_11(ctx, ctx.model)
